@@ -5,12 +5,37 @@ import json, subprocess
 
 BASE_TRUST = "bxv (self-written VC generator over go/ssa), go/ssa, the SMT solvers; external contracts of reflect/strconv/fmt/errors/strings/regexp assumed from documentation (spec/*.spec); see spec/ASSUMPTIONS.md"
 
+TECH="contract-based deductive verification: WP/VC generation over go/ssa of the real functions, contracts as //@ comments, obligations discharged by z3/cvc5"
 CHECKS = {
+ "C01": dict(cat="proof",
+   text="Every function from Evaluate down to the doEqual* comparators carries a functional postcondition against the spec function Eval (and EvalMatchP, EvalCollP/FoldColl, Resolve/ResolveFrom, EqSpec, InSpec, EmptySpec, MatchesSpec, FoldOpts), transcribed from the property statement; the obligations (posts at every return, loop invariants of the four loops, callee preconditions) are discharged for all data, literals, trees and option lists, with one-step unfolding of the recursive spec functions.",
+   note=BASE_TRUST + "; the meaning of a path walk is pointerstructure's (A-PS: PSGet uninterpreted), strconv/regexp results are uninterpreted spec functions of the same arguments; wf(ast) from the parser; A-STACK.",
+   tech=TECH, ref="DESIGN.md §6 C01"),
+ "C02": dict(cat="proof",
+   text="Coerce*, getMatchExprValue, primitiveEqualityFn, the six doEqual* and doMatchEqual are verified against EqSpec: the literal is parsed with ParseBool / ParseInt(s,0,64) / ParseUint(s,0,64) / ParseFloat(s,32|64) exactly (base and bit size are arguments of the spec function, so a changed base fails), integers are compared as mathematical integers, floats in SMT FloatingPoint at the field's width, a bad literal and a non-scalar kind yield the error outcome; the json.Number narrowing in evaluateMatchExpression is part of EvalMatchVal.",
+   note=BASE_TRUST + "; A-STRCONV, A-JSON.", tech=TECH, ref="DESIGN.md §6 C02"),
+ "C03": dict(cat="proof",
+   text="evaluate's postcondition outcome == Eval(ast, ...) is discharged at each of its returns with Eval unfolded once at the node: not swaps T/F and passes E, and/or return the left outcome unless it is T (resp. F) and then the right one, so the number and order of recursive evaluations is fixed by the spec; double negation, both De Morgan rewrites and 'an unreached operand's error is not reported' are spec-level lemmas discharged by SMT; termination by decreases on tree size.",
+   note=BASE_TRUST + "; wf(ast) (acyclic tree) from the parser.", tech=TECH, ref="DESIGN.md §6 C03"),
+ "C04": dict(cat="proof",
+   text="evaluateMatchExpression is verified against EvalMatchP, in which a negated operator is neg3 of its positive form applied to the same arguments, and the absent-key case is Disposition(op); NotPresentDisposition is verified against the table from the property; lemmas: the table, Disposition(negOp(op)) == !Disposition(op), EvalMatchVal(negOp(op)) == neg3(EvalMatchVal(op)), and the complement on absent keys. (The contains==in half lives in the grammar actions, see C15/C20.)",
+   note=BASE_TRUST + "; A-PS.", tech=TECH, ref="DESIGN.md §6 C04"),
+ "C05": dict(cat="proof",
+   text="getValue is verified against Resolve/ResolveGlobal: NotFound with an unknown value configured yields that value before any parent test, NotFound with >= 2 parts and a map parent (through pointers: derefValue against derefRV) yields 'absent', every other failure is an error; evaluateNotPresent, the absent branches of evaluateMatchExpression (Disposition) and evaluateCollectionExpression (op == ALL), and the plumbing of the unknown value through Evaluate/WithUnknownValue/getOpts are all under contract; lemmas: the unknown value is unused when the selector resolves, and substitutes exactly when it does not.",
+   note=BASE_TRUST + "; which failures are ErrNotFound is pointerstructure's (A-PS).", tech=TECH, ref="DESIGN.md §6 C05"),
+ "C06": dict(cat="proof",
+   text="evaluateCollectionExpression is verified against EvalCollP/FoldColl with a loop invariant FoldColl(i) == FoldColl(0): index order, first decisive element or first error ends the fold, empty gives any=false/all=true, non-list/non-string-keyed-map is an error; the binding lists built per element must equal bindList/bindMap from the property (value alias first, then key/index value; one-name form = value for lists, key for maps); the alias-resolution loop of getValue is verified against ResolveFrom (innermost binding first, alias re-resolved through the outer bindings, key/index names cannot be stepped into).",
+   note=BASE_TRUST + "; A-PS, A-SORT, A-STACK.", tech=TECH, ref="DESIGN.md §6 C06"),
  "C09": dict(cat="proof",
-   text="Every reflect call, type assertion, index/slice, nil dereference and indirect call in every function reachable from Evaluate carries a precondition obligation generated from the real code's SSA (zero-annotation safety sweep), and `err != nil ==> !res` is a postcondition of every function of the chain; all are discharged by SMT for an unconstrained datum (any kind, nil at any depth). Termination of the two recursions and all loops by decreases clauses.",
+   text="Every reflect call, type assertion, index/slice, nil dereference and indirect call in every function reachable from Evaluate carries a precondition obligation generated from the real code's SSA (zero-annotation safety sweep), and `err != nil ==> !res` is a postcondition of every function of the chain; all are discharged by SMT for an unconstrained datum (any kind, nil at any depth). Termination of the recursions and all loops by decreases clauses.",
    note=BASE_TRUST + "; A-PS (pointerstructure.Get total), A-OPTS (options come from this package's constructors), wf(ast) supplied by the parser (C10), A-STACK.",
-   tech="contract-based deductive verification: WP/VC generation over go/ssa with contracts in //@ comments, discharged by z3/cvc5",
-   ref="DESIGN.md §6 C09"),
+   tech=TECH, ref="DESIGN.md §6 C09"),
+ "C14": dict(cat="proof",
+   text="reflect.Value.MapKeys is specified as an arbitrary enumeration (keysOf); the postcondition of evaluateCollectionExpression is stated over sortedKeys(v) and cannot mention the enumeration, so it holds for every map order; the comparison closure passed to sort.Slice is verified to be the string order on the keys. (Filter.Execute over maps: see C17.)",
+   note=BASE_TRUST + "; A-SORT (sort.Slice sorts).", tech=TECH, ref="DESIGN.md §6 C14"),
+ "C18": dict(cat="proof",
+   text="Each option closure is verified to implement applyOpt for its constructor and to assign only its own field of *o (located assigns checked by the SSA frame walk); getOpts is verified against the left fold FoldOpts (loop invariant over the processed prefix, nil options skipped); Evaluate is verified to evaluate under exactly (tagName, hook, unknown value) of the evaluator; lemmas over applyOpt: distinct constructors commute, the last of equal constructors wins, each touches only its own field, and the neutral settings are no-ops.",
+   note=BASE_TRUST + "; hook neutrality/effect inside pointerstructure is A-PS/A-HOOK; CreateEvaluator's plumbing is checked with C10.", tech=TECH, ref="DESIGN.md §6 C18"),
 }
 
 NA_REASON_PENDING = "check not built yet in this session (planned, see DESIGN.md §10); nothing is claimed"
